@@ -1,5 +1,5 @@
 //! C07 Seeded planning is reproducible: two instances, same seed, same calls => same results.
-use super::hist::{run_history, CallRec, History, Op};
+use super::hist::{run_history, run_history_opts, CallRec, History, Op};
 use crate::drv::{Drv, Res, Snap};
 use crate::monitor::SampleMode;
 use crate::spec::{Kit, ALL_WRAPS};
@@ -123,6 +123,27 @@ fn run_case<K: Kit>(ctx: &Ctx, b: &mut Batch, kit: &K, h: &History) {
     }
     if b.samples.len() < 2 && r1.iter().any(|c| c.res.is_path()) {
         b.sample(json!({"history": h.describe(), "space": h.problems[0].spec.describe(), "seed": h.params.seed, "results": r1.iter().map(|c| c.res.short()).collect::<Vec<_>>() }));
+    }
+}
+
+/// Callback latency: the same history with a validity checker that answers at once and with one
+/// that takes 1 ms of real time for the first 40 queries of every public call (setup included).
+/// How long the user's callbacks take is not among the things results may depend on.
+fn latency_case<K: Kit>(ctx: &Ctx, b: &mut Batch, kit: &K, h: &History) {
+    b.evaluations += 1;
+    let Ok((_, r1)) = run_history::<K>(kit, h, false, 3_000_000) else { return };
+    let Ok((_, r2)) = run_history_opts::<K>(kit, h, false, 3_000_000, Some((1_000, 40))) else { return };
+    if r1.iter().chain(r2.iter()).any(|c| matches!(c.res, Res::Panic { .. } | Res::Budget)) {
+        return;
+    }
+    let pname = h.params.kind.name();
+    b.count("latency_pairs", 1);
+    b.count(&format!("latency_pairs[{pname}]"), 1);
+    if let Some((_, what)) = first_difference(&r1, &r2) {
+        let mut v = h.to_json();
+        v["property"] = json!("C07");
+        v["slow_validity_checker_us"] = json!(1000);
+        ctx.violate(&format!("result-depends-on-callback-latency:{pname}"), format!("{}: {what}", h.describe()), v);
     }
 }
 
@@ -329,6 +350,9 @@ pub fn run(tier: Tier, seed: u64) -> i32 {
                 if i % 4 == 1 {
                     pace_case::<K>(&ctx, &mut b, &kit, &h, &mut r);
                 }
+                if (i / 24) % 25 == 1 {
+                    latency_case::<K>(&ctx, &mut b, &kit, &h);
+                }
             });
             i += shards;
         }
@@ -340,11 +364,11 @@ pub fn run(tier: Tier, seed: u64) -> i32 {
     }
     // real-vs-virtual comparisons depend on the wall clock (a loaded machine may time out): they
     // are counted in the evidence but not required
-    for k in ["paths_compared", "prefix_pairs", "pacing_pairs[RRT]", "pacing_pairs[RRTConnect]", "pacing_pairs[RRTStar]", "pacing_pairs[PRM]", "roadmap_prefix_pairs"] {
+    for k in ["paths_compared", "prefix_pairs", "pacing_pairs[RRT]", "pacing_pairs[RRTConnect]", "pacing_pairs[RRTStar]", "pacing_pairs[PRM]", "roadmap_prefix_pairs", "latency_pairs[RRT]", "latency_pairs[RRTConnect]", "latency_pairs[RRTStar]", "latency_pairs[PRM]"] {
         ctx.require(k);
     }
     ctx.finish(
-        "cases = call histories ({setup; solve}, {setup; solve; solve}, {setup; solve; setup(P2); solve}, {solve; setup; solve}, PRM {setup; construct; solve; set_pd(P2); solve; construct; solve} ...) executed on two fresh instances with the same seed; results compared at every call (paths bit for bit, errors by variant, snapshots by hash); goal samplers that consume the planner's generator; iteration counts made exact by the virtual clock; plus prefix pairs (N vs N' > N iterations: node states, final parent links, roadmap links among the common milestones), clock-pacing pairs (same N iterations with the elapsed time distributed uniformly / front-loaded / back-loaded over the iterations: results, trees and roadmaps must be identical) and real-time vs virtual-time runs; distinct+non-trivial = distinct returned paths with >= 3 states",
+        "cases = call histories ({setup; solve}, {setup; solve; solve}, {setup; solve; setup(P2); solve}, {solve; setup; solve}, PRM {setup; construct; solve; set_pd(P2); solve; construct; solve} ...) executed on two fresh instances with the same seed; results compared at every call (paths bit for bit, errors by variant, snapshots by hash); goal samplers that consume the planner's generator; iteration counts made exact by the virtual clock; plus prefix pairs (N vs N' > N iterations: node states, final parent links, roadmap links among the common milestones), clock-pacing pairs (same N iterations with the elapsed time distributed uniformly / front-loaded / back-loaded over the iterations: results, trees and roadmaps must be identical), callback-latency pairs (validity checker answering at once vs taking 1 ms of real time for the first 40 queries of every call, setup included) and real-time vs virtual-time runs; distinct+non-trivial = distinct returned paths with >= 3 states",
         &[
             "user callbacks are deterministic (they are: pure functions of the state, plus the generator the planner passes in)",
             "the two instances run on the same thread, so any use of thread-local or OS entropy shows up as a difference",
